@@ -218,7 +218,17 @@ func runSolver(sp solverSpec, query string, timeoutS int) SolverResult {
 	return runSolverCtx(context.Background(), sp, query, timeoutS)
 }
 
+// at most this many solver processes at a time (16 cores): oversubscription
+// turns fast queries into timeouts
+var solverSlots = make(chan struct{}, 15)
+
 func runSolverCtx(parent context.Context, sp solverSpec, query string, timeoutS int) SolverResult {
+	select {
+	case solverSlots <- struct{}{}:
+	case <-parent.Done():
+		return SolverResult{Status: "cancelled", Solver: sp.name}
+	}
+	defer func() { <-solverSlots }()
 	ctx, cancel := context.WithTimeout(parent, time.Duration(timeoutS+2)*time.Second)
 	defer cancel()
 	argv := sp.argv(timeoutS)
